@@ -137,6 +137,21 @@ def selftest():
     changed(t, lambda: t.rename_column('x', 'x_0'), 'columns')
     changed(t, lambda: t['f'].__setitem__(0, 9 * u.Jy), 'values')
     changed(t, lambda: t.meta.__setitem__('k', 2), 'meta')
+    t2 = QTable({'x': [1.0, 2.0], 'local_bkg': [3.0, 4.0] * u.mJy})
+    col = t2['local_bkg']
+
+    def inplace_convert():
+        nonlocal col
+        col <<= u.Jy                       # in-place unit conversion of the column object stored in the table
+    changed(t2, inplace_convert, 'unit')
+    t3 = QTable({'local_bkg': [3.0, 4.0] * u.mJy})
+    c3 = t3['local_bkg']
+
+    def inplace_convert3():
+        nonlocal c3
+        c3 <<= u.Jy
+    changed(t3, inplace_convert3, 'values')
+    unchanged(QTable({'f': [1.0] * u.mJy}), lambda: (QTable({'f': [1.0] * u.mJy})['f'].to(u.Jy)))
     nd = NDData(np.ones((3, 3)), mask=np.zeros((3, 3), bool), uncertainty=StdDevUncertainty(np.ones((3, 3))))
     changed(nd, lambda: nd.mask.__setitem__((0, 0), True), 'mask')
     changed(nd, lambda: nd.uncertainty.array.__setitem__((0, 0), 5.0), 'values')
@@ -180,7 +195,16 @@ def _entry_for(case):
     nsh = plan(case.tier)['shards']
     cell = CLASSES.index(case.cls)
     block = case.idx // len(CLASSES)
-    return names[(cell + block * nsh + max(case.shard, 0)) % len(names)]
+    ne = len(names)
+    # diagonal enumeration of (entry, cell) pairs: offset j-th diagonal = j * stride (stride ~ ne / shards, coprime
+    # with ne), so that already the FIRST block of the shards touches every table entry (a budget-limited run
+    # under load then thins every entry evenly instead of starving the entries at the end of the table)
+    import math
+    stride = max(1, ne // max(nsh, 1))
+    while math.gcd(stride, ne) != 1:
+        stride += 1
+    j = block * nsh + max(case.shard, 0)
+    return names[(cell + j * stride) % ne]
 
 
 def _run_entry(name, seed, rep, cond, readonly=False, on_own=None):
@@ -348,6 +372,10 @@ def run_case(case):
         case.note('condition_absent')
     if ctx.aborted:
         case.note(f'entry_aborted|{name}|{ctx.aborted}')
+    for k in getattr(ctx, 'axes', {}):
+        case.note('axis|' + k)
+    if not getattr(ctx, 'axes', {}):
+        case.note('axis|plain_case')
     case.dev('case_wall_s', time.time() - t0)
     if os.environ.get('PV_C10_DEBUG'):
         case.params['raised_detail'] = ctx.raised[:6]
